@@ -1,4 +1,7 @@
 import PEval.Gen.CallSites
+import PEval.Gen.IsTarget
+import PEval.Model.FilterTable
+import PEval.Lemmas.FilterTable
 import PEval.Lemmas.FilterMono
 /-!
 # C10 — object filtering keeps exactly the objects satisfying the configured criteria
@@ -278,5 +281,92 @@ is a declared parameter of both -/
 theorem critical_params_declared :
     ∀ k ∈ Gen.criticalFilteringParamKeys, ∀ f ∈ ["filter_objects", "filter_object_results"],
       ∃ ps ∈ Gen.calleeParams, ps.1 = f ∧ k ∈ ps.2 := by decide +kernel
+
+/-! ## tie to the source: the decision table of `_is_target_object` (regenerated on every run)
+
+`Gen.IsTarget.tree` is the decision tree obtained by running the REAL `_is_target_object` on symbolic inputs over every
+assignment of the decision atoms it queries (`harness/dt_c10.py`); `FilterTable.isTargetTree` is the hand-written
+skeleton of the model over the same atoms. `DT.agree` decides — completely, for the finite decision space, by kernel
+evaluation — that the two give the same result under EVERY valuation of the atoms. A change of the source that alters
+a decision (an operator, a bound, a guard, the order of two tests that raise) changes the generated tree and the
+evaluation below yields `false`; a rewrite that keeps the decisions regenerates a tree for which it still yields `true`,
+with no edit here. When the translator cannot follow the source (`tree = none`) the statements hold vacuously and the
+check relies on the correspondence runs (the evidence says so). -/
+section Table
+open PEval.DT PEval.FilterTable
+
+/-- atoms a tree may ask again further down a path (the model re-reads `is_gt`, `target_labels is None` and
+`label in target_labels` at every stage): the checker records their decisions -/
+def tableSticky : List Nat := [aIsGt, aTargetsNone, aLabelIn]
+
+def isTargetTableOk : Bool :=
+  match Gen.IsTarget.tree with
+  | some t => agree forbidden tableSticky t isTargetTree PA.empty
+  | none => true
+
+/-- THE per-run obligation: the checker accepts the regenerated table (kernel evaluation over all paths) -/
+theorem isTarget_table_check : isTargetTableOk = true := by decide +kernel
+
+/-- the code's decision table equals the model's decision skeleton under every valuation of the atoms -/
+theorem isTarget_code_table_eq_model :
+    ∀ t, Gen.IsTarget.tree = some t → ∀ v : Val, consistent forbidden v = true → eval t v = isTargetAtoms v := by
+  intro t ht
+  have h := isTarget_table_check
+  unfold isTargetTableOk at h
+  rw [ht] at h
+  exact agree_sound h
+
+/-- no valuation is excluded: the list of forbidden conjunctions is empty for this function -/
+theorem isTarget_all_valuations_consistent (v : Val) : consistent forbidden v = true := by
+  simp [consistent, forbidden]
+
+/-- the bridge: the model `isTarget` is its decision skeleton applied to the atoms of the input (all inputs) -/
+theorem isTarget_eq_skeleton (P : Params) (o : Obj) :
+    isTargetAtoms (valuationOf P o) = ofExcept (isTarget P o) :=
+  isTarget_eq_tree P o
+
+/-- the CODE's decision table, read at the atoms of a concrete input, gives the model's verdict: the same Boolean, or
+the same exception kind -/
+theorem isTarget_code_table_eq_isTarget :
+    ∀ t, Gen.IsTarget.tree = some t → ∀ (P : Params) (o : Obj), eval t (valuationOf P o) = ofExcept (isTarget P o) := by
+  intro t ht P o
+  rw [isTarget_code_table_eq_model t ht _ (isTarget_all_valuations_consistent _)]
+  exact isTarget_eq_tree P o
+
+/-- C10 for the code's table: whenever the table returns, it returns `True` exactly on the criteria -/
+theorem table_iff_criteria {t : DTree} (ht : Gen.IsTarget.tree = some t) {P : Params} {o : Obj} {b : Bool}
+    (h : eval t (valuationOf P o) = .ret b) : b = true ↔ Criteria P o := by
+  rw [isTarget_code_table_eq_isTarget t ht] at h
+  exact isTarget_iff_criteria (ofExcept_ret h)
+
+/-- for the code's table: an FP-labelled object passes whatever the configuration -/
+theorem table_fp_label_passes {t : DTree} (ht : Gen.IsTarget.tree = some t) (P : Params) (o : Obj) (h : IsFP o.label) :
+    eval t (valuationOf P o) = .ret true := by
+  rw [isTarget_code_table_eq_isTarget t ht, fp_label_passes P o h]; rfl
+
+/-- for the code's table: an unknown-labelled estimate (unknown not a target) is judged only against confidence 0 and
+the mean of each range list -/
+theorem table_unknown_uses_mean {t : DTree} (ht : Gen.IsTarget.tree = some t) {P : Params} {o : Obj} {b : Bool}
+    (hu : IsUnknown o.label) (hg : P.isGt = false) (hT : ∀ ts, P.targets = some ts → ∀ t ∈ ts, ¬ IsUnknown t)
+    (h : eval t (valuationOf P o) = .ret b) :
+    b = true ↔ (P.conf ≠ none → 0 < o.score) ∧ ∀ p, EgoPos P o p →
+      (∀ l, P.maxX = some l → ∃ m, IsMean l m ∧ -m < p.x ∧ p.x < m) ∧
+      (∀ l, P.maxY = some l → ∃ m, IsMean l m ∧ -m < p.y ∧ p.y < m) ∧
+      (∀ l, P.maxDist = some l → ∃ m, IsMean l m ∧ 0 < m ∧ p.x * p.x + p.y * p.y < m * m) ∧
+      (∀ l, P.minDist = some l → ∃ m, IsMean l m ∧ (m < 0 ∨ m * m < p.x * p.x + p.y * p.y)) := by
+  rw [isTarget_code_table_eq_isTarget t ht] at h
+  exact unknown_uses_mean hu hg hT (ofExcept_ret h)
+
+/-- for the code's table: inside the documented contract the table never answers with an exception -/
+theorem table_no_exception_in_contract {t : DTree} (ht : Gen.IsTarget.tree = some t) {P : Params} {o : Obj}
+    (hP : WFParams P) (hO : WFObj P o) : ∃ b, eval t (valuationOf P o) = .ret b := by
+  obtain ⟨b, hb⟩ := isTarget_total hP hO
+  exact ⟨b, by rw [isTarget_code_table_eq_isTarget t ht, hb]; rfl⟩
+
+/-- non-vacuity: the table of the current source exists, and on a concrete input it gives the expected verdicts -/
+example : ∀ t, Gen.IsTarget.tree = some t → eval t (valuationOf exP (exObj 1 "AutowareLabel.CAR" 12 0)) = .ret false := by
+  intro t ht; rw [isTarget_code_table_eq_isTarget t ht]; decide +kernel
+
+end Table
 
 end PEval.C10
